@@ -233,6 +233,14 @@ def slice_view(eng, base, sl):
 
 
 def plist_slice(eng, base, sl):
+    if sl.step == -1 and sl.start is None and sl.stop is None and len(base.cols) == 1:
+        # lst[::-1]: a NEW list with the same elements in reverse order
+        used(eng, "list[::-1]: new list, element i is element n-1-i of the operand")
+        i, n = z3.Int(fresh_name("rv")), zint(base.n)
+        p = PList()
+        p.items, p.cols, p.kinds, p.n, p.tup = None, [z3.Lambda([i], z3.Select(base.cols[0], n - 1 - i))], [base.kinds[0]], base.n, False
+        p.proto = base.proto
+        return p
     if sl.step not in (None, 1):
         # L[a:b:step] with a CONCRETE step: a new list of len(range(*slice.indices(len(L)))) elements, element t = L[lo + t*step]
         # (the models of slice.indices / range, cross-checked against CPython; list slices: tools/xcheck_C19_models.py)
